@@ -12,6 +12,7 @@ import ruamel.yaml
 from harness import common, families, yamlout, netlist, spec
 
 ID = "C15"
+CLI_SECOND_TIE = True
 PROPS = "theories/Props/C15.v"
 
 
@@ -42,6 +43,15 @@ def descriptions(tier, seed):
             d = json.loads(json.dumps(d))
             d["routing"].update({"num_x_bits": 4, "num_y_bits": 3, "addr_offset_bits": 20, "num_id_bits": 6})
             out.append((d, dict(t, topo="explicit-routing-fields")))
+    # a declared protocol that no endpoint uses (valid; a diagnostic about it must not reach the text of a stdout mode
+    # or of a query answer)
+    for algo, nw in (("XY", False), ("ID", True)):
+        d, t = families.mesh(rng, 2, 2, algo, nw, sides=("W",))
+        if d is not None:
+            d = json.loads(json.dumps(d))
+            spare = dict(d["protocols"][0], name="spare_dbg")
+            d["protocols"].append(spare)
+            out.append((d, dict(t, topo="spare-protocol")))
     # names that extend each other (query lookups by name)
     d, t = families.star(rng, 3, "ID", False, roles=["ms", "s", "m"], shapes=[4, 2, None])
     ren = {"epa": "spm", "epb": "spm_narrow", "epc": "dma"}
@@ -75,7 +85,26 @@ def queries(desc, n):
     return qs
 
 
+def cli_tie(tier, seed, rep, replay):
+    """hand model of the pipeline vs observed runs of the real command line (every mode: same stages, expected views)"""
+    from harness import clitrace
+    if replay is not None and "mode" not in replay["case"]:
+        return
+    if replay is not None:
+        descs = [(replay["case"]["desc"], {"replay": True})]
+    else:
+        ds = [(d, t) for d, t in descriptions(tier, seed) if not str(t.get("topo", "")).startswith("example:")]
+        descs = ds[:2] if tier == "quick" else ds[:6]
+    before = len(rep.fails) + len(rep.corr)
+    st = clitrace.run_tie(rep, ID, descs)
+    rep.coverage["cli_observed"] = st
+    rep.cli_tie_ok = (len(rep.fails) + len(rep.corr) == before) and st["runner_errors"] == 0 and st["observed_runs"] > 0
+
+
 def run(tier, seed, rep, replay=None):
+    cli_tie(tier, seed, rep, replay)
+    if replay is not None and "mode" in replay["case"]:
+        return
     rng = random.Random(seed)
     descs = descriptions(tier, seed) if replay is None else [(replay["case"]["desc"], replay["case"].get("tags", {}))]
     seeds = [1, 4242] if tier == "quick" else [1, 7, 4242, 99991, 123456789]
